@@ -719,11 +719,15 @@ class Interp:
         return [TOP(all_ann(self.dom, v)) for _ in range(n)]
 
     def st_If(self, st, env):
-        t = self.eval(st.test, env)
+        pre = self._assumed(st.test) if self.assume else None
+        if pre is not None and getattr(self.dom, "skip_assumed_tests", False):
+            t = CONST(pre)  # the scenario decides this test: its operands are not even read
+        else:
+            t = self.eval(st.test, env)
         self.dom.on_branch(self, t, st)
         decided = _truth(t)
         if decided is None and self.assume:
-            decided = self._assumed(st.test)
+            decided = pre
         frame = self.frame
         envs = []
         n0 = len(frame.pc)
